@@ -336,8 +336,17 @@ impl Exec {
 			},
 			Ev::Stage(s) => {
 				let d0 = if self.pm.enabled { Some(self.digest()) } else { None };
+				let queued_before = if *s == St::P { self.digest().commit_queue_len } else { 0 };
 				let b = self.stage(*s)?;
 				self.last_stage_result = Some(b);
+				// The log worker goes to sleep when process_commits reports that there was nothing to do, and is only woken
+				// by the next commit (or shutdown). Whatever it did with the commit it took from a non-empty queue (logged
+				// it, or postponed a tree removal and queued it again), it must not report "nothing to do": the rest of the
+				// queue (C15), and a postponed removal whose reader has been released since (C11), would wait for the next
+				// unrelated commit.
+				if *s == St::P && queued_before > 0 && !b {
+					return Err(Fail::new("stall", format!("process_commits was called with {} commit(s) queued and reported that there was nothing to do ({} still queued): the log worker would go to sleep with work pending", queued_before, self.digest().commit_queue_len)))
+				}
 				if let Some(d0) = d0 {
 					let d1 = self.digest();
 					self.pm.step(*s, b, &d0, &d1).map_err(|m| Fail::new("model-divergence", m))?;
